@@ -10,6 +10,7 @@ import (
 
 	"metacontroller/pkg/internal/verif/kit"
 	"metacontroller/pkg/internal/verif/mc"
+	"metacontroller/pkg/internal/verif/sim"
 	"metacontroller/pkg/internal/verif/world"
 )
 
@@ -172,7 +173,9 @@ func (h *rollHist) Restore(s interface{}) {
 }
 
 func (h *rollHist) Events() []string {
-	ev := []string{"sync"}
+	// a sync, also with its first / second ControllerRevision write refused once (500): the sync fails, the work
+	// queue retries it - the rollout must complete all the same
+	ev := []string{"sync", "sync!rev-write-1-fails", "sync!rev-write-2-fails"}
 	if h.changes < h.maxCh {
 		for _, v := range []string{"v1", "v2", "v3"} {
 			if v != h.spec.Ver {
@@ -200,6 +203,27 @@ func (h *rollHist) Apply(ev string) {
 	h.hist = append(h.hist, ev)
 	x := h.x
 	switch {
+	case strings.HasPrefix(ev, "sync!rev-write-"):
+		nth, seen := int(ev[len("sync!rev-write-")]-'0'), 0
+		x.Sim.Plan = func(r *sim.Request) *sim.Fault {
+			if r.Kind == world.RevisionKind && r.Mutating() {
+				seen++
+				if seen == nth {
+					return &sim.Fault{Code: 500, Reason: "InternalError"}
+				}
+			}
+			return nil
+		}
+		err, p, stack := x.round()
+		x.Sim.Plan = nil
+		if p != nil {
+			h.bad("panic", "panic %v\n%s", p, stack)
+			return
+		}
+		if err == nil && seen >= nth {
+			h.bad("failed-revision-write-not-reported", "a ControllerRevision write was refused and the sync reported success")
+			return
+		}
 	case ev == "sync":
 		err, p, stack := x.round()
 		if p != nil {
@@ -227,7 +251,7 @@ func (h *rollHist) Apply(ev string) {
 		h.writeSpec(x, h.spec)
 		x.DeliverAll()
 	}
-	// safety on every state: no child is recorded in two revisions
+	// safety after every successful sync: no child is recorded in two revisions
 	seen := map[string]int{}
 	for _, r := range x.revisions() {
 		for _, g := range kit.List(r, "children") {
@@ -237,7 +261,9 @@ func (h *rollHist) Apply(ev string) {
 		}
 	}
 	for nm, n := range seen {
-		if n > 1 {
+		// (after a refused revision write a child may be on record twice - added to the latest record, not yet
+		// dropped from the old one - until the retry; the convergence check below covers what follows)
+		if n > 1 && ev == "sync" {
 			h.bad("double-claim", "child %s is recorded in %d ControllerRevisions", nm, n)
 		}
 	}
